@@ -8,15 +8,16 @@ import zlib
 import numpy as np
 
 from sim import filgen
-from sim.core import Rejected, Violation
+from sim.core import nint, Rejected, Violation
 
 from .c01 import PlanOracle
 
 ID = "C18"
+VARY_ARGFORM = True  # integer call arguments also arrive as numpy integer scalars
 GUARD_KERNELS = True
 SHRINK_LISTS = ("ops",)
 SHRINK_MIN = {"nsblk": 4, "nsub": 1, "nchans": 1, "gulp": 1, "nsamps": 1}
-SHRINK_SIMPLE = {"earlier_same_path": False, "gzip": False}
+SHRINK_SIMPLE = {"earlier_same_path": False, "gzip": False, "argform": "int", "bw_cards": 0}
 LAYOUTS = [("AABBCRCI", 4), ("AABBCRCI", 4), ("STOKE", 4), ("STOKE", 4), ("AABB", 2), ("INTEN", 1)]
 
 
@@ -263,7 +264,7 @@ def execute(sc, ctx) -> None:
                 st, n = op["start"], op["nsamps"]
                 in_range = st >= 0 and st + n <= N
                 try:
-                    result_block = reader.read_block(st, n)
+                    result_block = reader.read_block(nint(st), nint(n))
                     got = np.asarray(result_block.data)
                     raised = None
                 except Exception as e:  # noqa: BLE001
@@ -305,7 +306,7 @@ def execute(sc, ctx) -> None:
                 orc = PlanOracle(ctx, fs, planop, "pfits", info)
                 orc.viol = lambda clause, detail="", _i=info: Violation(f"C18/read_plan/{clause}", detail, _i)
                 try:
-                    for item in reader.read_plan(gulp=g, start=st, nsamps=ns, skipback=sb, quiet=True):
+                    for item in reader.read_plan(gulp=nint(g), start=nint(st), nsamps=nint(ns), skipback=nint(sb), quiet=True):
                         n_r, ii, arr = item
                         orc.block((n_r, ii, np.asarray(arr).astype(W.dtype)))
                     orc.exhausted()
@@ -325,7 +326,7 @@ def execute(sc, ctx) -> None:
                 dm = round(op.get("dmfrac", 0.0) * (N / 4) / unit, 4) if unit > 0 else 0.0
 
                 def reduce(rd, _op=op, _dm=dm):
-                    kw = {"gulp": _op["gulp"], "quiet": True}
+                    kw = {"gulp": nint(_op["gulp"]), "quiet": True}
                     if kind in ("collapse", "bandpass"):
                         return np.asarray(getattr(rd, kind)(**kw).data)
                     if kind == "dedisperse":
